@@ -91,6 +91,16 @@ Judge(ev) ==
             ELSE IF pos # {} THEN ExpectRows(pos) ELSE same
       [] base = "SelectByKeys" -> ExpectRows(PosByFields(db, t, ev.cols, ev.vals))
       [] base = "DeleteByKeys" -> ExpectDelete(PosByFields(db, t, ev.cols, ev.vals), FALSE)
+      [] base = "Query" ->   \* custom query  UPDATE t SET cols[1] = vals[1] WHERE cols[2] = vals[2]
+            LET pos == PosByFields(db, t, <<ev.cols[2]>>, <<ev.vals[2]>>)
+                k == Idx(t, ev.cols[1])
+                newrows == [i \in 1..Len(db[n]) |-> IF i \in pos THEN [db[n][i] EXCEPT !.c = [j \in 1..Len(@) |-> IF j = k THEN ev.vals[1] ELSE @[j]]] ELSE db[n][i]]
+                newdb == [db EXCEPT ![n] = newrows]
+                errs == (IF \A i \in pos : UniqueOK(t, newrows, newrows[i], i) THEN {} ELSE {"unique"})
+                        \cup (IF \A i \in pos : FKOK(newdb, t, newrows[i]) THEN {} ELSE {"fk"}) IN
+            IF errs # {} THEN (IF ev.err \in errs THEN same ELSE Bad("the model expects an error in " \o ToString(errs) \o ", the call returned " \o (IF ev.err = "" THEN "no error" ELSE ev.err \o " " \o ev.msg)))
+            ELSE IF ev.err # "" THEN Bad("SQL error on a legal call: " \o ev.err \o " " \o ev.msg)
+            ELSE [why |-> "", db |-> newdb, next |-> next]
       [] base = "Delete" ->
             LET pos == PosByLinkKeys(db, t, [id |-> 0, c |-> ev.row])
                 res == DeleteAt(meta, db, t, pos) IN
